@@ -139,6 +139,11 @@ def execute(case):
         env.wipe_cache()
     n = n_loaded = n_agree = n_skip = 0
     work = [("", da, op) for op in case["ops"]]
+    if cached_from == "cli":
+        # every selection is the FIRST load of its own copy of the never-loaded lazy object
+        import copy
+
+        work = [("", copy.deepcopy(da), op) for op in case["ops"]]
     if case.get("check_open"):
         # copies of the lazy object (deep copy, copy module, pickle round trip) stand for the same image opened with the
         # same records_per_chunk: their loads obey the same bounds
@@ -262,6 +267,11 @@ def plan(tier):
                         for b in c02.batches(tc, L, P, rpc, reps, size=800):
                             b["cached_from"] = other
                             cases.append(b)
+                        # ... and through an index written by the command line tool elsewhere and deployed next to the image;
+                        # every selection is then the first load of a fresh copy of the lazy object
+                        for b in c02.batches(tc, L, P, rpc, reps, size=800):
+                            b["cached_from"] = "cli"
+                            cases.append(b)
     return cases
 
 
@@ -270,7 +280,7 @@ def run(res, tier, seed):
         "rows alphabet of C02 (all ints, slices, int arrays len<=2, masks) x 4 column representatives, plus every pointwise (vectorised) pair" " and triple of lines, x rpc 1..L+1 x L 1..4|6 x both types;"
         " each load's mcfs:// event log is checked against byte spans computed by independent arithmetic; the same bounds for loads from deep copies / pickle round trips of the lazy object; plus one"
         " open_alos2 metadata-pass log per (type, L, P, rpc); plus the same loads on an image opened through an index cache that was"
-        " written and first used with a different rpc (groups are those of the *requested* rpc); plus 20 selections on realistically sized"
+        " written and first used with a different rpc (groups are those of the *requested* rpc), and through an index written by the command line tool elsewhere and deployed next to the image (every selection = first load of a fresh copy); plus 20 selections on realistically sized"
         " images (640x1000 IU2, 320x600 C*8 at rpc {default, 64, 1000}; 2500x8 IU2, 2100x3 C*8 at rpc {default, 100, 1000, 2048}; 1300x40000 IU2 (104 MB) at rpc {default, 64, 100}, 300x40000 C*8 at rpc 7, 5120x4 IU2). A batch is non-trivial if at least one selection loads >= 1 line."
     )
     res.assumptions = ["I/O is observed at the fsspec file-object level (open/seek/read), not at the OS level"]
